@@ -85,6 +85,17 @@ func (w *World) fsInit() {
 		"os.Open":                    w.fsOpen,
 		"os.OpenFile":                w.fsOpenFile,
 		"os.Rename":                  w.fsRename,
+		"os.Remove": func(ex *Exec, c *callCtx) Value {
+			f := w.file(c.args[0])
+			existed := f.Exists
+			alive, _ := w.effect(c, "remove", f)
+			f.Exists = And(f.Exists, Not(alive))
+			for _, cl := range f.Cells {
+				cl.Pres = And(cl.Pres, Not(alive))
+			}
+			f.Garbled = And(f.Garbled, Not(alive))
+			return MergeV(existed, NilRef(), w.notExistErr())
+		},
 		"os.WriteFile":               w.fsWriteFile,
 		"(*os.File).Close":           func(ex *Exec, c *callCtx) Value { return NilRef() },
 		"(*os.File).Sync":            func(ex *Exec, c *callCtx) Value { return NilRef() },
